@@ -39,14 +39,16 @@ Qed.
 Lemma batch_J buffer s K n apps :
   J buffer s K -> wf_item buffer (s, K) (HBatch n apps) ->
   exists s', hexec buffer (s, K) (HBatch n apps) = ROk (s', rev apps ++ skipn n K) /\
-             J buffer s' (rev apps ++ skipn n K).
+             J buffer s' (rev apps ++ skipn n K) /\
+             (forall id, negof1 s' id = negof1 s id) /\ (forall id, negof2 s' id = negof2 s id).
 Proof.
   intros HJ [Hn Hext].
   destruct (reverts_J buffer n s K Hn HJ) as (s1 & E1 & HJ1 & N1 & N2).
-  destruct (applies_J buffer apps s1 (skipn n K) HJ1) as (s2 & E2 & HJ2 & _ & _).
+  destruct (applies_J buffer apps s1 (skipn n K) HJ1) as (s2 & E2 & HJ2 & M1 & M2).
   { eapply ext_ok_mono; [| |exact Hext]; intros id ng; [rewrite N1|rewrite N2]; auto. }
-  exists s2. split; [|exact HJ2].
-  cbn [hexec exec]. unfold chain_update. rewrite E1. cbn [rbind]. rewrite E2. reflexivity.
+  exists s2. split; [|split; [exact HJ2|]].
+  - cbn [hexec exec]. unfold chain_update. rewrite E1. cbn [rbind]. rewrite E2. reflexivity.
+  - split; intros id; [rewrite M1, N1|rewrite M2, N2]; reflexivity.
 Qed.
 
 Definition item_stack (K : list block) (it : item) : list block :=
@@ -54,19 +56,31 @@ Definition item_stack (K : list block) (it : item) : list block :=
 (* the best chain a history ends on *)
 Definition best_chain (l : list item) (K : list block) : list block := fold_left item_stack l K.
 
+(* contracts are never forgotten and keep their negotiation height *)
+Definition grows (s s' : state) : Prop :=
+  (forall id ng, negof1 s id = Some ng -> negof1 s' id = Some ng) /\
+  (forall id ng, negof2 s id = Some ng -> negof2 s' id = Some ng).
+
 Lemma hist_J buffer : forall l s K,
   J buffer s K -> wf_hist buffer l (s, K) ->
-  exists s', hrun buffer l (s, K) = ROk (s', best_chain l K) /\ J buffer s' (best_chain l K).
+  exists s', hrun buffer l (s, K) = ROk (s', best_chain l K) /\ J buffer s' (best_chain l K) /\ grows s s'.
 Proof.
   induction l as [|it l IH]; intros s K HJ Hwf.
-  - exists s. split; [reflexivity|exact HJ].
+  - exists s. split; [reflexivity|split; [exact HJ|split; auto]].
   - destruct Hwf as [Hit Hrest]. unfold hrun in *. cbn [foldM best_chain fold_left].
     destruct it as [n apps| |o].
-    + destruct (batch_J buffer s K n apps HJ Hit) as (s1 & E1 & HJ1).
-      rewrite E1 in *. cbn [rbind]. apply IH; assumption.
-    + destruct (rescan_J buffer s K HJ) as (s1 & E1 & HJ1).
-      rewrite E1 in *. cbn [rbind]. apply IH; assumption.
-    + cbn [hexec] in *. cbn [rbind]. apply IH; [apply plain_J; assumption|exact Hrest].
+    + destruct (batch_J buffer s K n apps HJ Hit) as (s1 & E1 & HJ1 & N1 & N2).
+      rewrite E1 in *. cbn [rbind]. destruct (IH s1 _ HJ1 Hrest) as (s' & E' & HJ' & G1 & G2).
+      exists s'. split; [exact E'|split; [exact HJ'|]].
+      split; intros id ng H; [apply G1; rewrite N1|apply G2; rewrite N2]; exact H.
+    + destruct (rescan_J buffer s K HJ) as (s1 & E1 & HJ1 & N1 & N2).
+      rewrite E1 in *. cbn [rbind]. destruct (IH s1 _ HJ1 Hrest) as (s' & E' & HJ' & G1 & G2).
+      exists s'. split; [exact E'|split; [exact HJ'|]].
+      split; intros id ng H; [apply G1; rewrite N1|apply G2; rewrite N2]; exact H.
+    + cbn [hexec] in *. cbn [rbind].
+      destruct (IH (exec_plain o s) K) as (s' & E' & HJ' & G1 & G2); [apply plain_J; assumption|exact Hrest|].
+      exists s'. split; [exact E'|split; [exact HJ'|]].
+      destruct (plain_negof s o Hit) as [P1 P2]. split; intros id ng H; [apply G1, P1|apply G2, P2]; exact H.
 Qed.
 
 Lemma J_init buffer : J buffer init [].
@@ -95,7 +109,7 @@ Proof.
   assert (Hit : wf_item buffer (s, K0) (HBatch 0 [b])).
   { cbn. split; [lia|]. split; [exact Hb|exact I]. }
   split; [exact Hit|].
-  destruct (batch_J buffer s K0 0 [b] HJ Hit) as (s1 & E1 & HJ1). rewrite E1.
+  destruct (batch_J buffer s K0 0 [b] HJ Hit) as (s1 & E1 & HJ1 & _ & _). rewrite E1.
   cbn [rev app skipn] in *. apply IH; [exact HJ1|].
   (* the store still knows the same contracts *)
   destruct (applies_J buffer [b] s K0 HJ) as (s2 & E2 & _ & N1 & N2); [split; [exact Hb|exact I]|].
